@@ -142,7 +142,22 @@ def impl_prep(case):
         P['orig'].append(int(k.original_label)); P['sig'].append(k.net_demand_standard_deviation); P['z'].append(k.demand_bound_constant)
     P['MM'] = int(rt.max_max_replenishment_time)
     P['pt'] = pt
+    P['is_correct'] = bool(gsm_tree.is_correctly_labeled(pt))
+    rf = gsm_tree.relabel_nodes(pt, force_relabel=True)
+    P['rooted'] = rooted_form(rt); P['rooted_forced'] = rooted_form(rf)
     return P
+
+
+def rooted_form(rt):
+    m0 = int(min(rt.node_indices)); byp = {int(k.index) - m0: k for k in rt.nodes}
+    return [(int(byp[p].original_label), int(byp[p].larger_adjacent_node) - m0 if byp[p].larger_adjacent_node is not None else 0,
+             bool(byp[p].larger_adjacent_node_is_downstream)) for p in range(len(byp))]
+
+
+def relabel_expr(case):
+    ids = cnatl([d['id'] for d in case['nodes']])
+    edges = clist(['(%s, %s)' % (cnat(a), cnat(b)) for a, b in case['edges']])
+    return '(is_correctly_labeled %s %s, relabel_rooted %s %s false, relabel_rooted %s %s true)' % (ids, edges, ids, edges, ids, edges)
 
 
 def serial_form(case):
@@ -368,6 +383,7 @@ def explore(chk, ncases, nmax, enum_limit, do_model=True, kinds=None):
             sl['vecs'] = [r[1], rv]
             sl['tree'] = len(exprs); exprs.append(tree_expr(P))
             sl['help'] = len(exprs); exprs.append(helpers_expr(c, P, sl['vecs']))
+            sl['relab'] = len(exprs); exprs.append(relabel_expr(c))
             if c['serial_std']:
                 sl['ser'] = len(exprs); exprs.append(serial_expr(serial_form(c)))
         slots.append(sl)
@@ -455,6 +471,15 @@ def explore(chk, ncases, nmax, enum_limit, do_model=True, kinds=None):
                 pairs = msol[1] if (isinstance(msol, tuple) and msol[0] == 'Some') else msol
                 mv = {P['orig'][p]: pairs[p][0] for p in range(n)}
                 compare_vectors(chk, ind, cst, mv, 'tree model vs implementation CSTs', c, chk.mismatch)
+            # relabel_nodes / is_correctly_labeled / _find_larger_adjacent_nodes
+            mic, mroot, mrootf = model[sl['relab']]
+            chk.count('already_correctly_labelled=%s' % P['is_correct'])
+            if bool(mic) != P['is_correct']:
+                chk.mismatch('is_correctly_labeled: model %r vs implementation %r' % (mic, P['is_correct']), c)
+            if [tuple(x) for x in mroot] != P['rooted']:
+                chk.mismatch('relabel_nodes: model %r vs implementation %r' % (mroot, P['rooted']), c)
+            if [tuple(x) for x in mrootf] != P['rooted_forced']:
+                chk.mismatch('relabel_nodes(force_relabel=True): model %r vs implementation %r' % (mrootf, P['rooted_forced']), c)
             # gsm_helpers
             from stockpyl import gsm_helpers
             hM, hvar, hv = model[sl['help']]
@@ -493,8 +518,8 @@ def run(chk):
                    'CST vectors may differ only between solutions whose costs agree within 1e-7 (counted as near_tie_skipped)',
                    'stage costs are non-decreasing in the net lead time (true for h*z*sigma*sqrt(tau) with non-negative coefficients) where a theorem says so']
     chk.proof()
-    if chk.tier == 'quick': n, nmax, lim = 110, 6, 30000
-    else: n, nmax, lim = 1500, 8, 400000
+    if chk.tier == 'quick': n, nmax, lim = 220, 6, 30000
+    else: n, nmax, lim = 3000, 8, 400000
     explore(chk, n, nmax, lim)
     if (chk.broken or chk.mismatches) and not chk.fails:
         explore(chk, 4 * n if chk.tier == 'quick' else n, nmax, lim, do_model=False)
